@@ -59,6 +59,7 @@ type eLink struct {
 	Tfs []string  `json:"tfs"`
 	MM  bool      `json:"mm"`
 	NA  []eNAct   `json:"na"`
+	LID int       `json:"lid,omitempty"` // an id: action written on a chained (non-first) link; it names no rule of its own
 }
 type eRule struct {
 	// a configuration-time directive instead of a rule (acts on the rules before it)
@@ -361,6 +362,9 @@ func renderRule(r eRule) string {
 			}
 		}
 		acts = append(acts, renderLinkActions(l)...)
+		if i > 0 && l.LID > 0 {
+			acts = append(acts, "id:"+strconv.Itoa(l.LID))
+		}
 		if i+1 < len(r.Links) {
 			acts = append(acts, "chain")
 		}
@@ -680,8 +684,9 @@ func genNAct(r *gen.R, p engProfile, det bool, ruleIDs []int) eNAct {
 		}
 	}
 	k := r.Pick(eTxKeys...)
-	if det && r.Chance(0.1) {
-		k = "k%{tx.n}"
+	if det && r.Chance(0.12) {
+		// a key built by macro expansion: text + macro, or nothing but one macro
+		k = r.Pick("k%{tx.n}", "k%{tx.n}", "%{tx.s}", "%{tx.n}", "%{matched_var}")
 	}
 	a := eNAct{N: "setvar", K: gen.Field(k)}
 	switch r.Intn(8) {
@@ -878,6 +883,9 @@ func genEngCase(r *gen.R, p engProfile) *eCase {
 			prevDet := false
 			for k := 0; k < nl; k++ {
 				l, det := genLink(r, p, k == 0, prevDet, ids)
+				if k > 0 && r.Chance(0.25) {
+					l.LID = ids[i]*10 + k
+				}
 				prevDet = det
 				ru.Links = append(ru.Links, l)
 			}
@@ -975,6 +983,21 @@ func genEngCase(r *gen.R, p engProfile) *eCase {
 		c.Rules = append(c.Rules[:pos], append(sib, c.Rules[pos:]...)...)
 	} else {
 		cacheTrioName = ""
+	}
+	if p.ctl >= 0.3 && r.Chance(0.2) && n >= 2 {
+		// two or three run-time id ranges in one transaction: nested, overlapping, adjacent, the same twice, in either order
+		l := eLink{Tg: []eTarget{}, Tfs: []string{}, NA: []eNAct{}}
+		lo, hi := ids[0], ids[len(ids)-1]
+		rs := [][2]int{{lo, hi}, {lo + 10, hi - 10}, {lo + 10, lo + 10}, {hi - 10, hi + 20}, {lo, lo + 10}, {lo + 11, hi}, {lo - 5, lo + 5}}
+		for k := 2 + r.Intn(2); k > 0; k-- {
+			x := rs[r.Intn(len(rs))]
+			if x[0] > x[1] {
+				x[0], x[1] = x[1], x[0]
+			}
+			l.NA = append(l.NA, eNAct{N: "ctlRemoveByRange", Lo: x[0], Hi: x[1]})
+		}
+		g := eRule{ID: 15, Ph: 1, Mk: "-", Rt: "-", Sa: "-", Sev: -1, Tags: []string{}, Links: []eLink{l}}
+		c.Rules = append([]eRule{g}, c.Rules...)
 	}
 	if p.ctl >= 0.3 && r.Chance(0.3) {
 		// run-time target exclusions aimed at a rule that exists and at variables it really reads:
@@ -1244,6 +1267,7 @@ func init() {
 			p := engProfiles[[]string{"api", "ctl", "flow", "acct"}[i%4]]
 			probe := genEngCase(c.r, p)
 			guarded := c.r.Chance(0.5)
+			failingGuard := false
 			if guarded {
 				// a first rule whose actions only the predecessor triggers (ARGS_GET:trig=1): anything it
 				// changes must die with the predecessor
@@ -1271,6 +1295,11 @@ func init() {
 					l.NA = append(l.NA, a)
 				}
 				g.Links = []eLink{l}
+				if c.r.Chance(0.35) {
+					// the guard as a chain whose second link never matches: its first link's actions run, the rule never counts as matched
+					g.Links = append(g.Links, eLink{Tg: []eTarget{{V: "ARGS_GET", K: gen.Field("trig"), X: []string{}}}, Op: &eOp{N: "streq", A: gen.Field("never")}, Tfs: []string{}, NA: []eNAct{}})
+					failingGuard = true
+				}
 				probe.Rules = append([]eRule{g}, probe.Rules...)
 			}
 			if c.r.Chance(0.3) {
@@ -1293,6 +1322,11 @@ func init() {
 			if guarded {
 				pred.Get = append([][2]string{{gen.Field("trig"), gen.Field("1")}}, pred.Get...)
 				c.stats.Hit("predecessor-only-actions")
+			}
+			if failingGuard && c.r.Chance(0.6) {
+				// a predecessor in which (often) no rule at all ends up matched: nothing but the trigger
+				pred.Get, pred.Post, pred.Hdr, pred.Uri, pred.Rhdr = [][2]string{{gen.Field("trig"), gen.Field("1")}}, [][2]string{}, [][2]string{}, "", nil
+				c.stats.Hit("predecessor-bare")
 			}
 			if c.r.Chance(0.3) && len(pred.Calls) > 0 {
 				pred.Calls = pred.Calls[:len(pred.Calls)-1] // e.g. no ProcessLogging
